@@ -344,7 +344,7 @@ def relations(case, res, rng_seed=0):
     """-> list of (name, detail) for relations of the property that fail on the implementation"""
     fails = []
     for a in res["anomalies"]:
-        fails.append(("bias-exactly-where-requested", a))
+        fails.append(("bias-exactly-where-requested" if "bias" in a else "module-parameters", a))
     if res["out"] is None:
         fails.append(("legal-input-raises", res["exc"]))
         return fails
@@ -610,7 +610,9 @@ def nontrivial(case):
 
 
 def family(case):
-    """the two families of inputs on which the tree as found deviates from the property"""
+    """the two families of inputs on which the tree as first examined deviated from the property (both since
+    repaired in /repo: 4f65990, 6eeab25); kept for bookkeeping in reports and so that a known-findings entry with
+    signature {"family": ...} could be matched should one ever be listed"""
     if case.get("malformed"):
         return None
     if case["flavour"] == "mha" and case.get("mshape") is not None:
